@@ -483,6 +483,12 @@ func (fv *FuncVerifier) evalBuiltin(st *State, env *Env, call *ast.CallExpr, nam
 		}
 		return []Term{fv.unsupported(st, env, call, "len of "+string(v.Sort), SInt)}
 	case "append":
+		if a0, ok := ast.Unparen(call.Args[0]).(*ast.Ident); ok && !env.spec && st.resliced != nil {
+			if rs, ok := st.resliced[env.info.ObjectOf(a0)]; ok {
+				fv.oblige(st, env, "S", "alias-append", Ge(rs[1], fv.w.SeqLen(rs[0])), call.Lparen,
+					"append to a reslice s[:k] of a slice this function does not own: k == len(s), otherwise the append overwrites elements other holders of s still see")
+			}
+		}
 		s := fv.eval(st, env, call.Args[0])
 		rt := fv.typeOf(env, call)
 		if s.S == "null" || !w.IsSeq(s.Sort) {
